@@ -390,6 +390,10 @@ func runOpts(fields []string) (out string) {
 		restore := mwSilenceStd()
 		defer restore()
 	}
+	// option values are reusable: they configure a throw-away router and a throw-away route first
+	if pre, e0 := fox.New(gopts...); e0 == nil && !hnil {
+		_, _ = pre.NewRoute("/zz-reuse/{a}", optStatusHandler(200), ropts...)
+	}
 	router, err := fox.New(gopts...)
 	if err != nil {
 		return "I=new:" + optErrClass(err) + "\tJ=err"
